@@ -613,12 +613,13 @@ rel sched(int,int,int) input; rel never() input; rel step(int); rel dom(int);
 rel r(int,int) ds {provider};
 rel iff(int,int); rel ibf(int,int); rel ifb(int,int); rel ibb(int,int);
 rel off(int,int); rel obf(int,int); rel ofb(int,int); rel obb(int,int);
-rel j(int,int); rel nr(int,int); rel cnt(int); rel outdeg(int,int);
+rel j(int,int); rel nr(int,int); rel cnt(int); rel outdeg(int,int); rel indeg(int,int); rel insum(int,int);
 step(0);
 step(i + 1) <-- step(i), if i < 2;
 step(0) <-- r(_,_), never();
 dom(x) <-- for x in 0..3;
 r(x,y) <-- step(i), sched(i,x,y);
+r(x,y) <-- step(i), sched(i,x,y), dom(x);
 iff(x,y) <-- r(x,y);
 ibf(x,y) <-- dom(x), r(x,y);
 ifb(x,y) <-- dom(y), r(x,y);
@@ -632,6 +633,8 @@ j(x,z) <-- sched(_,x,y), r(y,z);
 nr(x,y) <-- dom(x), dom(y), !r(x,y);
 cnt(n) <-- agg n = count() in r(_,_);
 outdeg(x,n) <-- dom(x), agg n = count() in r(x,_);
+indeg(y,n) <-- dom(y), agg n = count() in r(_,y);
+insum(y,s) <-- dom(y), agg s = sum(x) in r(x,y);
 """
 
 
@@ -645,16 +648,36 @@ def _ds_ternary(provider):
 rel sched(int,int,int,int) input; rel never() input; rel step(int); rel dom(int); rel kd(int);
 rel r(int,int,int) ds {provider};
 {decl}
-rel nr(int,int,int); rel cnt(int,int);
+rel nr(int,int,int); rel cnt(int,int); rel indeg(int,int,int);
 step(0);
 step(i + 1) <-- step(i), if i < 2;
 step(0) <-- r(_,_,_), never();
 dom(x) <-- for x in 0..3;
 kd(k) <-- for k in 0..2;
 r(k,x,y) <-- step(i), sched(i,k,x,y);
+r(k,x,y) <-- step(i), sched(i,k,x,y), dom(x);
 {rules}
 nr(k,x,y) <-- kd(k), dom(x), dom(y), !r(k,x,y);
 cnt(k,n) <-- kd(k), agg n = count() in r(k,_,_);
+indeg(k,y,n) <-- kd(k), dom(y), agg n = count() in r(k,_,y);
+"""
+
+
+def _ds_tern_only(provider, pat):
+    # ONE access pattern per program: which reverse maps / sub-indices a provider allocates depends on the set of indices
+    # the whole program uses, so a pattern must also work when no other pattern is around
+    b = {"010": "dom(x), r(k,x,y)", "001": "dom(y), r(k,x,y)", "011": "dom(x), dom(y), r(k,x,y)"}[pat]
+    return f"""
+rel sched(int,int,int,int) input; rel never() input; rel step(int); rel dom(int);
+rel r(int,int,int) ds {provider};
+rel i{pat}(int,int,int); rel o{pat}(int,int,int);
+step(0);
+step(i + 1) <-- step(i), if i < 2;
+dom(x) <-- for x in 0..3;
+r(k,x,y) <-- step(i), sched(i,k,x,y);
+i{pat}(k,x,y) <-- {b};
+r(k,x,y) <-- i{pat}(k,x,y), never();
+o{pat}(k,x,y) <-- {b};
 """
 
 
@@ -698,6 +721,8 @@ for _prov, _tag in (("eqrel", "ds10"), ("trrel", "ds11"), ("trrel_uf", "ds12")):
     prog(f"{_prov}_order", _ds_order(_prov), f"ds {_tag} order" + (" par" if _prov == "eqrel" else ""), bound=1, dom=2)
     prog(f"{_prov}_bin", _ds_binary(_prov), f"ds {_tag}" + (" par" if _prov == "eqrel" else ""), bound=3, dom=3)
     prog(f"{_prov}_tern", _ds_ternary(_prov), f"ds {_tag}", bound=2, dom=3)
+    for _pat in ("010", "001", "011"):
+        prog(f"{_prov}_only{_pat}", _ds_tern_only(_prov, _pat), f"ds {_tag}", bound=2, dom=3)
     prog(f"{_prov}_plain", _ds_plain(_prov), f"ds {_tag}" + (" par" if _prov == "eqrel" else ""), bound=3, dom=3)
 
 
